@@ -302,7 +302,9 @@ impl<T: Copy + Number + std::fmt::Debug> Sparse<T> {
 
 impl Sparse<f64> {
     /// The residual norm ||b - Ax|| / normb computed from x itself ( not from a recurrence ); success
-    /// is only reported once this confirms the recursively updated residual
+    /// is only reported once this confirms the recursively updated residual. When it does not ( the 
+    /// recurrence has drifted away from b - Ax ) the solver is restarted from the current iterate with 
+    /// what is left of the budget: going on with a converged recurrence would only drive it to 0 / 0
     fn true_residual( &self, b: &Vector<f64>, x: &Vector<f64>, normb: f64 ) -> f64 {
         ( b.clone() - self.multiply( x ) ).norm_2() / normb
     }
@@ -370,7 +372,10 @@ impl Sparse<f64> {
             rho_2 = rho_1;
             if itol == 1 { err = r.norm_2() / bnrm; }
             if itol == 2 { err = z.norm_2() / bnrm; }
-            if err <= tol && self.true_residual( b, x, bnrm ) <= tol { return Ok( iter ); }
+            if err <= tol {
+                if self.true_residual( b, x, bnrm ) <= tol { return Ok( iter ); }
+                return self.solve_bicg( b, x, max_iter - iter, tol, itol ).map( |k| k + iter );
+            }
         }
         Err(err)
     }
@@ -424,7 +429,10 @@ impl Sparse<f64> {
             s = r.clone() - v.clone() * alpha;
             *x += alpha * phat.clone();
             resid = s.norm_2() / normb;
-            if resid <= tol && self.true_residual( b, x, normb ) <= tol { return Ok( i ); }
+            if resid <= tol {
+                if self.true_residual( b, x, normb ) <= tol { return Ok( i ); }
+                return self.solve_bicgstab( b, x, max_iter - i, tol ).map( |k| k + i );
+            }
             //shat = s; //could have preconditioner here shat = M.solve(s);
             self.identity_preconditioner( &s, &mut shat );
             t = self.multiply( &shat );
@@ -433,7 +441,10 @@ impl Sparse<f64> {
             r = s - t * omega;
             rho_2 = rho_1;
             resid = r.norm_2() / normb;
-            if resid < tol && self.true_residual( b, x, normb ) <= tol { return Ok( i ); }
+            if resid < tol {
+                if self.true_residual( b, x, normb ) <= tol { return Ok( i ); }
+                return self.solve_bicgstab( b, x, max_iter - i, tol ).map( |k| k + i );
+            }
             if omega == 0.0 { return Err( resid ); }
         }
         Err(resid)
@@ -484,7 +495,10 @@ impl Sparse<f64> {
             *x += p.clone() * alpha;
             r -= q.clone() * alpha;
             resid = r.norm_2() / normb;
-            if resid <= tol && self.true_residual( b, x, normb ) <= tol { return Ok( i ); }
+            if resid <= tol {
+                if self.true_residual( b, x, normb ) <= tol { return Ok( i ); }
+                return self.solve_cg( b, x, max_iter - i, tol ).map( |k| k + i );
+            }
             rho_1 = rho;
         }
         Err(resid)
@@ -613,7 +627,10 @@ impl Sparse<f64> {
             r -= s.clone();
 
             resid = r.norm_2() / normb;
-            if resid <= tol && self.true_residual( b, x, normb ) <= tol { return Ok( i ); } 
+            if resid <= tol {
+                if self.true_residual( b, x, normb ) <= tol { return Ok( i ); }
+                return self.solve_qmr( b, x, max_iter - i, tol ).map( |k| k + i );
+            }
         }
         Err(resid)
     }
